@@ -171,7 +171,7 @@ def _run_case(case):
                 cls = type(dic[k.split(":", 1)[1].split(".")[0] if k.startswith("attr:") else k.split(":", 1)[1]]).__name__ if True else ""
                 last = history[-1] if history else None
                 sig = "C11:stale:%s:%s" % (gname, k)
-                if tview_written:
+                if last and last.startswith("assign through view") and "of a transformed parameter" in last:
                     # mechanism: a view's setter writes into its parent's tensor; when the parent is a TransformedParameter that is the
                     # cached transformed value, not the parameter underneath: the value is neither propagated down nor survives the next update
                     sig = "C11:assignment-through-a-view-of-a-transformed-parameter-writes-into-its-cache"
@@ -209,7 +209,10 @@ def _run_case(case):
         val = dic[e]().sum()
         reached = []
         if torch.isfinite(val) and val.requires_grad:
-            val.backward()
+            try:
+                val.backward()
+            except (RuntimeError, NotImplementedError):
+                return None  # a density that cannot be differentiated is C12's business, not an update
             reached = [pid for pid in leaves if dic[pid].grad is not None and bool(torch.isfinite(dic[pid].grad).all()) and leaves[pid] in ("positive", "real", "unit")]
         for pid in leaves:
             p = dic[pid]
@@ -287,6 +290,11 @@ def _run_case(case):
                 cur = t.tensor.detach()
                 if type(t.transform).__name__ == "StickBreakingTransform":
                     val = torch.tensor(rng.dirichlet([4.0] * cur.shape[-1]))
+                    if rng.random() < 0.5:
+                        # frequencies as they are written down (three decimals: they add up to one only approximately); the value the
+                        # parameter then holds is whatever the transform makes of them, and the same in a fresh copy
+                        val = torch.tensor(np.round(val.numpy(), 3)).clamp(min=0.001)
+                        C["rounded_simplex_assignments"] = C.get("rounded_simplex_assignments", 0) + 1
                 elif type(t.transform).__name__ in ("SigmoidTransform",):
                     val = torch.tensor(rng.uniform(0.1, 0.9, tuple(cur.shape)))
                 elif type(t.transform).__name__ in ("LogTransform", "AffineTransform"):
